@@ -27,3 +27,12 @@ for mod in ('plans_exa', 'plans_exb', 'plans_exc', 'plans_exd', 'plans_exe'):
             continue
         raise
     PLANS.update(m.PLANS)
+
+# C03 = codec round trips (EX-C) + frames actually handed to sockets (EX-A family "wire")
+try:
+    from vflib import plans_exa as _pa
+    if 'C03' in PLANS and not any(j['name'] == 'wire' for j in PLANS['C03']['jobs']):
+        PLANS['C03']['jobs'].append(_pa.WIRE_JOB)
+        PLANS['C03']['targets'] = list(PLANS['C03']['targets']) + ['bin/exa']
+except Exception:
+    raise
